@@ -628,6 +628,20 @@ func (g *Gen) run(n int) {
 					g.uploadStep(offs, recv)
 				case 4:
 					g.refsStep()
+				case 5:
+					// content the directory already holds is uploaded again (the overlay then has its own copy), what refers
+					// to it is deleted, and a collection follows: the copy underneath must not show through
+					repo := "r1"
+					if len(g.blobsIn[repo]) > 0 {
+						c := g.pick(g.blobsIn[repo])
+						g.emit("UPOST " + repo + " digest=sha256:" + c + " body=" + c)
+					}
+					if len(g.manIn[repo]) > 0 && g.r.Intn(2) == 0 {
+						g.emit("MDEL " + repo + " sha256:" + g.pick(g.manIn[repo]))
+					}
+					if strings.HasPrefix(mode, "store=memdir") && g.r.Intn(2) == 0 {
+						g.emit("GC " + repo)
+					}
 				default:
 					g.step()
 				}
